@@ -40,6 +40,15 @@ def make_cases(rng, tier, diff_here):
             cases.append(base("ExecuteMixModel", rules, hold=NAMES[0]))
             cases.append(base("ExecuteInverseMixModel", rules, hold=NAMES[rng.randrange(max(1, k - 1))]))
             cases.append(base("ExecuteInverseMixModel", rules, hold=NAMES[k - 1]))
+    # the smallest rule sets: one rule (mix / inverse-mix have special cases for len <= 2), and n + m == len exactly
+    for f in [(), (0,)]:
+        rules = rules_with_failing(1, f)
+        for e in ("ExecuteMixModel", "ExecuteInverseMixModel"):
+            cases.append(base(e, rules, hold="ra"))
+            cases.append(base(e, rules))
+        for e in ["ExecuteNSortMConcurrent", "ExecuteNConcurrentMSort", "ExecuteNConcurrentMConcurrent"]:
+            cases.append(base(e, rules, n=1, m=1))
+            cases.append(base(e, rules, n=1, m=0))
     # invalid parameters
     for e in NM:
         for (n, m) in [(0, 1), (1, 0), (-1, 2), (3, 2), (2, 3)]:
